@@ -131,7 +131,9 @@ class Unit:
                     ii.line = it.line + it.text.count('\n', 0, ii.off)
                     ii.end_line = ii.line + ii.text.count('\n')
                 sub_mod = (modpath + '::' if modpath else '') + it.name
+                self.inline_mods = getattr(self, 'inline_mods', []) + [it.name]
                 v, p = self.process_items(inner_items, it.text, raw, relpath, sub_mod)
+                self.inline_mods = self.inline_mods[:-1]
                 V.append('} // verus!\npub mod %s {\n%s\nverus! {\n%s\n} // verus!\n%s\n} // mod %s\nverus! {' % (it.name, STD_USE, v, p, it.name))
                 continue
             if k in ('struct', 'enum'):
@@ -335,7 +337,8 @@ class Unit:
     def process_fn(self, it, im, repo_rel, modpath):
         """Returns (verus_text, plain_text, extra_items_text)."""
         f = parse_fn(it.text)
-        key = repo_rel + ' :: ' + ((im.key + ' :: ') if im else '') + f.name
+        inl = ''.join(m + ' :: ' for m in getattr(self, 'inline_mods', []))
+        key = repo_rel + ' :: ' + inl + ((im.key + ' :: ') if im else '') + f.name
         c = self.contracts.get(key)
         if c is not None:
             c.used = True
